@@ -72,6 +72,10 @@ func main() {
 		genC08(run, r)
 	case "c10":
 		genC10(run, r)
+	case "conc":
+		genConc(run, r)
+	case "witnesses":
+		genWitnesses(run, r)
 	case "all":
 		genC09(run, r)
 		genC08(run, r)
@@ -179,6 +183,9 @@ func genC09(run *hx.Run, r *hx.Rng) {
 		}
 		if i%7 == 3 {
 			p2pCase(run, r, t, k)
+		}
+		if i%5 == 1 {
+			targetedC09(run, r, i/5)
 		}
 	}
 	for _, k := range sortedKeys(run.Tags) {
